@@ -215,16 +215,88 @@ fn mode_scripted(case: &Value) -> Value {
     }
 }
 
+#[derive(Clone)]
+struct Named {
+    name: String,
+    aliases: Vec<String>,
+}
+
+impl Command for Named {
+    fn name(&self) -> String {
+        self.name.clone()
+    }
+    fn aliases(&self) -> Vec<String> {
+        self.aliases.clone()
+    }
+    fn clone_and_box(&self) -> Box<dyn Command> {
+        Box::new(self.clone())
+    }
+}
+
+/// registry histories through the public Commands API
+fn mode_registry(case: &Value) -> Value {
+    let mut commands = Commands::new();
+    let mut results = vec![];
+    for op in case["ops"].as_array().cloned().unwrap_or_default() {
+        let kind = op[0].as_str().unwrap_or("");
+        let x = op[1].as_str().unwrap_or("").to_string();
+        match kind {
+            "set" => {
+                let aliases = op[2].as_array().cloned().unwrap_or_default().iter().map(|a| a.as_str().unwrap().to_string()).collect();
+                results.push(json!(commands.set(Box::new(Named { name: x, aliases })).is_ok()));
+            }
+            "remove" => results.push(json!(commands.remove(&x))),
+            _ => results.push(json!(commands.get(&x).map(|c| c.name()))),
+        }
+    }
+    let mut probe = serde_json::Map::new();
+    for u in case["universe"].as_array().cloned().unwrap_or_default() {
+        let u = u.as_str().unwrap().to_string();
+        let got = commands.get(&u).map(|c| c.name());
+        let exists = commands.exists(&u);
+        let for_use = commands.get_for_use(&u).map(|c| c.name());
+        if exists != got.is_some() || for_use != got {
+            probe.insert(u, json!("INCONSISTENT"));
+        } else {
+            probe.insert(u, json!(got));
+        }
+    }
+    let mut alias_table = serde_json::Map::new();
+    for (k, v) in &commands.aliases {
+        alias_table.insert(k.clone(), json!(v));
+    }
+    json!({"results": results, "probe": probe, "names": commands.get_all_command_names(), "aliases": alias_table})
+}
+
 fn main() {
     let mut input = String::new();
     std::io::stdin().read_to_string(&mut input).unwrap();
     let case: Value = serde_json::from_str(&input).expect("case json");
     let mode = case["mode"].as_str().unwrap_or("parse").to_string();
+    if mode == "batch" {
+        // many cases in one process; a panic in one case is reported for that case only
+        std::panic::set_hook(Box::new(|_| {}));
+        let mut out = vec![];
+        for c in case["cases"].as_array().cloned().unwrap_or_default() {
+            let m = c["mode"].as_str().unwrap_or("parse").to_string();
+            let r = std::panic::catch_unwind(|| match m.as_str() {
+                "parse" => mode_parse(&c),
+                "sdk" => mode_sdk(&c),
+                "scripted" => mode_scripted(&c),
+                "registry" => mode_registry(&c),
+                _ => json!({"error": "unknown mode"}),
+            });
+            out.push(r.unwrap_or(json!({"panic": true})));
+        }
+        println!("{}", json!({"results": out}));
+        return;
+    }
     let result = std::panic::catch_unwind(|| match mode.as_str() {
         "parse" => mode_parse(&case),
         "parse_file" => mode_parse_file(&case),
         "sdk" => mode_sdk(&case),
         "scripted" => mode_scripted(&case),
+        "registry" => mode_registry(&case),
         _ => json!({"error": "unknown mode"}),
     });
     match result {
